@@ -514,7 +514,46 @@ func c07Scenarios() []*engine.SScenario {
 			return rt.Outcome{Res: res, Violations: append(viol, panicsAndDeadlocks(res)...), Digest: dig}
 		}}
 	}
+	// features built by hand: the number is drawn with NextFeatureId, then the feature is added; a third caller uses GetOrAddFeature
+	manual := &engine.SScenario{Name: "NextFeatureId + AddFeature from two callers | GetOrAddFeature", Run: func(cfg rt.Config) rt.Outcome {
+		var viol []string
+		var dig string
+		res := rt.Execute(cfg, func() {
+			w := world.New(false)
+			e := w.AddLocalEntity([]uint{1}, model.EntityTypeTypeCEM, 0)
+			ids := make([]uint, 3)
+			rt.BeginExplore()
+			for i, t := range []string{"lc", "ms"} {
+				i, t := i, t
+				rt.Go(func() {
+					id := e.NextFeatureId()
+					ids[i] = id
+					e.AddFeature(spine.NewFeatureLocal(id, e, ltTypes[t], model.RoleTypeServer))
+				})
+			}
+			rt.Go(func() { ids[2] = uint(*e.GetOrAddFeature(ltTypes["ec"], model.RoleTypeClient).Address().Feature) })
+			rt.WaitIdle()
+			rt.JoinFinished()
+			if ids[0] == ids[1] || ids[0] == ids[2] || ids[1] == ids[2] {
+				viol = append(viol, fmt.Sprintf("a feature number was handed out twice | numbers=%v", ids))
+			}
+			seen := map[uint]bool{}
+			for _, f := range e.Features() {
+				n := uint(*f.Address().Feature)
+				if seen[n] || e.FeatureOfAddress(f.Address().Feature) != f {
+					viol = append(viol, fmt.Sprintf("two features of one entity share a feature number | number=%d", n))
+				}
+				seen[n] = true
+			}
+			if len(e.Features()) != 3 {
+				viol = append(viol, fmt.Sprintf("features added concurrently are missing | features=%d", len(e.Features())))
+			}
+			dig = fmt.Sprint(len(seen))
+		})
+		return rt.Outcome{Res: res, Violations: append(viol, panicsAndDeadlocks(res)...), Digest: dig}
+	}}
 	return []*engine.SScenario{
+		manual,
 		readVs("discovery read | RemoveEntity of a middle entity", func(l *ltWorld) { l.w.L.RemoveEntity(l.ents["e11"]) }),
 		readVs("discovery read | RemoveEntity of the first entity", func(l *ltWorld) { l.w.L.RemoveEntity(l.ents["e1"]) }),
 		readVs("discovery read | AddEntity", func(l *ltWorld) { l.w.L.AddEntity(l.ents["e2"]) }),
